@@ -17,7 +17,8 @@ COQ = dict(imports=["Model.OfflineEffect", "Spec.C12"], in_ty="c12_in", out_ty="
            corr="corr_C12", decide="check_C12", inclass="inclass_C12", model="model_C12",
            preamble="From Coq Require Import ZArith.")
 THEOREMS = ["C12_check_sound", "C12_same_effect", "C12_main", "C12_refuted_tab", "C12_refuted_empty_plan",
-            "C12_refuted_empty_version_table", "C12_post_identity", "C12_exec_post_literal", "C12_heads_invariant",
+            "C12_refuted_empty_version_table", "C12_post_identity", "C12_exec_post_literal", "C12_exec_post_statement",
+            "C12_text_read", "C12_same_effect_text", "C12_heads_invariant", "C12_outcome_sim", "C12_abort_same_statement",
             "C12_lit_c_roundtrip"]
 TRUSTED = [
     "SQLAlchemy literal rendering (literal_binds) + SQLite's reading of a literal: Section hypothesis "
@@ -27,15 +28,26 @@ TRUSTED = [
     "SQLite affinity): validated on every case because the real online database is compared with the model's",
     "the plan (steps and the INSERT/UPDATE/DELETE each step issues on the version table) is an input: it is read from the real "
     "ScriptDirectory._upgrade_revs/_downgrade_revs and the real HeadMaintainer.update_to_step (their correctness is C01-C03)",
-    "SQLite semantics of CREATE/DROP TABLE, ADD COLUMN, CREATE/DROP INDEX, INSERT, DELETE, UPDATE on constraint-free tables "
-    "(modelled, validated by the run)",
+    "SQLite semantics of CREATE/DROP TABLE, ADD COLUMN, CREATE/DROP (UNIQUE) INDEX, INSERT, DELETE, UPDATE with column defaults, "
+    "NOT NULL, PRIMARY KEY / UNIQUE sets (modelled, validated by the run incl. the statement at which a violation stops it)",
+    "transaction behaviour of the sqlite3 driver under the stock env.py (DML opens the transaction, DDL before it is permanent, "
+    "one commit per migration step, rollback on error): modelled (o_snap / rolled_back) and validated on every failing case by "
+    "comparing the real online database after the error with the model's",
+    "C12_same_effect_text / C12_text_read: SQLAlchemy's compiler output has the token structure blanks-tokens-blanks (render_wf) "
+    "and SQLite reads a statement text token-wise (sqlite_reads): Section hypotheses, satisfiable (C12_text_nonvacuous), exercised "
+    "by executing the real script; SQLAlchemy's text() on op.execute strings: Section variable untext",
 ]
 ASSUME = [
     "no literal of the plan contains a tab character (no_tab_in_literals) — otherwise C12_refuted_tab",
     "the starting database is at `start`: version rows = start, and NO version table when start is base "
     "(an empty version table at base makes the offline CREATE TABLE fail; outside the statement)",
     "version heads are non-empty between two steps and the plan is not empty when starting from base (true of real plans)",
-    "SQLite only; columns are nullable and constraint-free; statements that are not applicable abort both runs",
+    "SQLite only; a primary key is never a lone INTEGER column (that would be the rowid); uniqueness compares stored values "
+    "structurally (the generator keeps one representation per column)",
+    "when a statement fails the property claims only that the other side fails too (proved: after exactly the same statements, "
+    "C12_abort_same_statement); the leftovers differ by the rolled-back transaction and are modelled, not claimed equal",
+    "`start` is base or one revision: multi-head starts (a+b:..., a,b:..., heads:... with two heads) are rejected by alembic "
+    "with CommandError (probed on every run: evidence key multi_head_start_rejected)",
 ]
 RULE = ("quick 700 / thorough 10000 cases.  seeded generation: histories of 1-6 revisions (linear, branched, merges, several bases, depends_on), upgrade ranges "
         "start:end (start = base or a revision, end = revision/head(s)/+N) and downgrade ranges from:to (to = base, ancestor, -N); "
@@ -43,7 +55,9 @@ RULE = ("quick 700 / thorough 10000 cases.  seeded generation: histories of 1-6 
         "server defaults; bulk rows with explicit None, with omitted keys, and ragged key sets under multiinsert=False; execute "
         "literals with colons and backslash-colon escapes) with values from "
         "{quotes, backslashes, NULL, unicode, ints, big ints, decimals, floats, dates, datetimes, booleans, ';', newlines, "
-        "%(x)s, :name, ?}; ~5% bodies with an inapplicable statement.  non-trivial = at least one step ran and at least one row "
+        "%(x)s, :name, ?}; tables with NOT NULL columns, PRIMARY KEY / UNIQUE column sets, unique indexes (key columns get fresh "
+        "values); ~5% bodies with an inapplicable statement and ~15% with an injected constraint violation (repeated key, NULL into "
+        "NOT NULL, colliding UPDATE, NOT NULL column without default) — on those both leftovers are compared with the model.  non-trivial = at least one step ran and at least one row "
         "was inserted; distinct by the encoded input")
 EXHAUSTIVE = {"quick": False, "thorough": False}
 CASE_TIMEOUT = 60
@@ -56,8 +70,9 @@ LEVEL_TEXT = ("Machine-checked: for every starting database, every plan (steps w
               "offline statement stream statement by statement has exactly the observable effect of the online run (tables, "
               "columns, rows, indexes, version rows); refuted with a witness when a literal contains a tab (DefaultImpl._exec "
               "replaces tabs inside string literals).")
-LEVEL_NOTE = ("Partial: literal rendering and SQLite's parsing are a hypothesis validated by the run, not proved; the plan is an "
-              "input (C01-C03); SQLite only; constraint-free tables; an absent and an empty version table are identified.")
+LEVEL_NOTE = ("Partial: literal rendering, the compiler's token structure and SQLite's reading are hypotheses validated by the run, not "
+              "proved; the plan is an input (C01-C03); SQLite only; an absent and an empty version table are identified; after a "
+              "failing statement only 'both fail, at the same statement' is claimed.")
 
 FINDING_TAB = "C12-tab-in-literal"
 VERIF = os.path.dirname(os.path.dirname(os.path.dirname(os.path.abspath(__file__))))
@@ -225,11 +240,32 @@ def exec_ok_string(s):
     return ":" not in s and "\\" not in s and "%" not in s
 
 
-def gen_history(rnd, tier, tabs=False, invalid=False):
+def gen_history(rnd, tier, tabs=False, invalid=False, violate=False):
     n = rnd.choice([1, 2, 3, 3, 4, 4, 5, 5, 6, 6])
     shape = rnd.choice(["linear", "linear", "dag", "dag", "dag"])
     revs = []
-    ctr = {"c": 0, "ix": 0, "t": 0}
+    ctr = {"c": 0, "ix": 0, "t": 0, "k": 0}
+    keyc = set()             # columns that belong to a PRIMARY KEY / UNIQUE set: their values are fresh, never repeated
+    tabinfo = {}             # table -> its column list (live)
+
+    def fresh_value(ty):
+        m = ctr["k"]
+        ctr["k"] += 1
+        if ty == T_INT:
+            return ["i", 1000 + m]
+        if ty == T_BIG:
+            return ["i", 10 ** 12 + m]
+        if ty in (T_STR, T_TEXT):
+            return ["s", "k%d_" % m + rnd.choice(["", "it's", "\u00e9", "a b", "''"])]
+        if ty == T_NUM:
+            return ["d", "%d.25" % (m + 1)]
+        if ty == T_FLOAT:
+            return ["f", repr(m + 0.5)]
+        if ty == T_DATE:
+            return ["date", datetime.date.fromordinal(700000 + m).isoformat()]
+        if ty == T_DT:
+            return ["dt", (datetime.datetime(2000, 1, 1) + datetime.timedelta(seconds=m)).isoformat()]
+        raise AssertionError(ty)
     anc = {}                 # id -> set of ancestor ids (via down and deps)
     surviving = {}           # id -> list of (table, [(col,ty)]) created by that revision and not dropped by it
     for k in range(n):
@@ -258,7 +294,7 @@ def gen_history(rnd, tier, tabs=False, invalid=False):
         own_ix = []
         anc_tabs = [tc for p in sorted(a) for tc in surviving[p]]
 
-        def new_cols(m):
+        def new_cols(m, addcol=False):
             out = []
             for _ in range(m):
                 ty = rnd.randrange(len(TYPES))
@@ -266,12 +302,37 @@ def gen_history(rnd, tier, tabs=False, invalid=False):
                 if rnd.random() < 0.4:
                     while dflt is None or (dflt[0] == "s" and ("%" in dflt[1])):
                         dflt = gen_value(rnd, ty, tabs)
-                out.append([ctr["c"], ty, dflt])
+                notnull = rnd.random() < 0.2 and (not addcol or dflt is not None)
+                out.append([ctr["c"], ty, dflt, notnull])
                 ctr["c"] += 1
             return out
 
+        def constrain(cols):
+            """PRIMARY KEY / UNIQUE column sets for a new table; the columns become key columns"""
+            uniq = []
+            cand = [c for c in cols if c[1] != T_BOOL]
+            if not cand or rnd.random() < 0.45:
+                return uniq
+            kinds = rnd.choice([["pk"], ["u"], ["pk", "u"], ["u", "u"]])
+            for kind in kinds:
+                if not cand:
+                    break
+                us = rnd.sample(cand, rnd.randint(1, min(2, len(cand))))
+                if kind == "pk":
+                    if len(us) == 1 and us[0][1] == T_INT:
+                        us[0][1] = T_BIG          # a lone INTEGER PRIMARY KEY would be the rowid (auto-assigned on NULL)
+                    for c in us:
+                        c[3] = True               # SQLAlchemy renders primary key columns NOT NULL
+                cand = [c for c in cand if c not in us]
+                for c in us:
+                    c[2] = None
+                    keyc.add(c[0])
+                uniq.append({"cols": [c[0] for c in us], "pk": kind == "pk"})
+            return uniq
+
         def rows_for(cols, execonly=False):
-            keys = [c for c in cols if rnd.random() < 0.85] or cols[:1]
+            # a NOT NULL column without default must be given
+            keys = [c for c in cols if rnd.random() < 0.85 or (c[3] and c[2] is None)] or cols[:1]
             rows = []
             # ragged: the row dicts do not all carry the same keys (a later row omits a column an earlier one gave);
             # such a list is inserted with multiinsert=False (online executemany needs one key set)
@@ -280,19 +341,29 @@ def gen_history(rnd, tier, tabs=False, invalid=False):
                 row = {}
                 rkeys = keys
                 if ragged and rows:
-                    rkeys = [c for c in keys if rnd.random() < 0.6] or [rnd.choice(keys)]
-                for c, ty, dflt in rkeys:
-                    if execonly:
+                    rkeys = [c for c in keys if rnd.random() < 0.6 or (c[3] and c[2] is None)] or [rnd.choice(keys)]
+                for c, ty, dflt, notnull in rkeys:
+                    if c in keyc:
+                        v = fresh_value(ty)
+                        if not notnull and rnd.random() < 0.1:
+                            v = None                       # NULL never conflicts
+                        if execonly:
+                            v = sql_lit(v)
+                    elif execonly:
                         if ty in (T_STR, T_TEXT):
                             v = rnd.choice(EXEC_TEXTS)
                             if tabs and rnd.random() < 0.4:
                                 v = "'tab\there'"
                         else:
                             v = sql_lit(gen_value(rnd, ty))
+                        while notnull and v == "NULL":
+                            v = rnd.choice(EXEC_TEXTS) if ty in (T_STR, T_TEXT) else sql_lit(gen_value(rnd, ty))
                     else:
                         v = gen_value(rnd, ty, tabs)
                         if dflt is not None and rnd.random() < 0.35:
                             v = None           # explicit None for a column that has a server default
+                        while notnull and v is None:
+                            v = gen_value(rnd, ty, tabs)
                     row[str(c)] = v
                 rows.append(row)
             multi = False if len(set(tuple(sorted(r)) for r in rows)) > 1 else (rnd.random() < 0.7)
@@ -302,8 +373,10 @@ def gen_history(rnd, tier, tabs=False, invalid=False):
             t = ctr["t"]
             ctr["t"] += 1
             cols = new_cols(rnd.randint(1, 4))
-            up.append(["ct", t, cols])
-            own.append([t, list(cols), True])
+            uniq = constrain(cols)
+            up.append(["ct", t, [list(c) for c in cols], uniq])
+            own.append([t, cols, True])
+            tabinfo[t] = cols
         nops = rnd.randint(1, 5)
         for _ in range(nops):
             targets = [(o[0], o[1]) for o in own if o[2]] + anc_tabs
@@ -313,25 +386,27 @@ def gen_history(rnd, tier, tabs=False, invalid=False):
             r = rnd.random()
             if r < 0.40:
                 keys, rows, multi = rows_for(cols)
-                up.append(["bi", t, [[c, ty] for c, ty, _ in keys], rows, multi])
+                up.append(["bi", t, [[c[0], c[1]] for c in keys], rows, multi])
             elif r < 0.55:
-                c = new_cols(1)[0]
+                c = new_cols(1, addcol=True)[0]
                 up.append(["ac", t, c])
                 for o in own:
                     if o[0] == t:
                         o[1].append(c)
             elif r < 0.72:
-                ic = rnd.sample(cols, rnd.randint(1, min(2, len(cols))))
+                kc = [c for c in cols if c[0] in keyc]
+                unique = bool(kc) and rnd.random() < 0.5
+                ic = rnd.sample(kc, rnd.randint(1, min(2, len(kc)))) if unique else rnd.sample(cols, rnd.randint(1, min(2, len(cols))))
                 ix = ctr["ix"]
                 ctr["ix"] += 1
-                up.append(["ci", ix, t, [c[0] for c in ic]])
+                up.append(["ci", ix, t, [c[0] for c in ic], unique])
                 own_ix.append([ix, t])
             elif r < 0.84:
                 keys, rows, _multi = rows_for(cols, execonly=True)
                 if rnd.random() < 0.6:
                     up.append(["xi", t, rows[0]])
-                elif rnd.random() < 0.7:
-                    c = keys[0][0]
+                elif rnd.random() < 0.7 and [c for c in keys if c[0] not in keyc]:
+                    c = [c for c in keys if c[0] not in keyc][0][0]      # setting a key column of every row would collide
                     up.append(["xu", t, c, rows[0][str(c)]])
                 else:
                     up.append(["xd", t])
@@ -349,7 +424,7 @@ def gen_history(rnd, tier, tabs=False, invalid=False):
             t, cols = rnd.choice(anc_tabs)
             if rnd.random() < 0.6:
                 keys, rows, multi = rows_for(cols)
-                dn.append(["bi", t, [[c, ty] for c, ty, _ in keys], rows, multi])
+                dn.append(["bi", t, [[c[0], c[1]] for c in keys], rows, multi])
             else:
                 dn.append(["xd", t])
         for ix, it in own_ix:
@@ -396,13 +471,48 @@ def gen_history(rnd, tier, tabs=False, invalid=False):
                 kind = rnd.randrange(4)
                 own_t = [o[1] for o in r["up"] if o[0] == "ct"]
                 if kind == 0 and own_t:
-                    body.insert(rnd.randint(0, len(body)), ["ct", own_t[0], [[10 ** 6, 0, None]]])          # maybe existing
+                    body.insert(rnd.randint(0, len(body)), ["ct", own_t[0], [[10 ** 6, 0, None, False]], []])   # maybe existing
                 elif kind == 1:
                     body.insert(rnd.randint(0, len(body)), ["di", 10 ** 6])                           # no such index
                 elif kind == 2:
                     body.insert(rnd.randint(0, len(body)), ["bi", 10 ** 6, [[0, 0]], [{"0": ["i", 1]}]])  # no such table
                 else:
                     body.append(["dt", 10 ** 6])
+    if violate:
+        # a constraint violation in a body the command will run: a repeated key, a NULL in a NOT NULL column, a NOT NULL
+        # column added without default, a unique index over repeated values, an UPDATE that makes keys collide
+        if cmd == "upgrade":
+            start = None
+        done = False
+        for r in rnd.sample(revs, len(revs)):
+            body = r["up"] if cmd == "upgrade" else r["dn"]
+            for o in rnd.sample(body, len(body)):
+                if o[0] != "bi" or not o[3] or o[1] not in tabinfo:
+                    continue
+                cols = {c[0]: c for c in tabinfo[o[1]]}
+                kcs = [c for c, _ in o[2] if c in keyc and o[3][0].get(str(c)) is not None]
+                nns = [c for c, _ in o[2] if cols[c][3]]
+                kind = rnd.randrange(3)
+                if kind == 0 and kcs:
+                    o[3].append(dict(o[3][0]))                      # the first row again: repeated key
+                elif kind == 1 and nns:
+                    rnd.choice(o[3])[str(rnd.choice(nns))] = None   # NULL into NOT NULL
+                elif kcs and len(o[3]) >= 1:
+                    body.insert(body.index(o) + 1, ["xu", o[1], kcs[0], sql_lit(o[3][0][str(kcs[0])])])
+                    if len(o[3]) < 2:
+                        o[3].append({k2: (fresh_value(cols[int(k2)][1]) if int(k2) in keyc else v2) for k2, v2 in o[3][0].items()})
+                else:
+                    continue
+                done = True
+                break
+            if done:
+                break
+        if not done:
+            r = rnd.choice(revs)
+            body = r["up"] if cmd == "upgrade" else r["dn"]
+            own_t = [o for o in r["up"] if o[0] == "ct"]
+            if own_t and cmd == "upgrade":
+                body.append(["ac", own_t[0][1], [10 ** 6 + 1, T_INT, None, True]])   # NOT NULL column without default
     raw_pool = [chr(c) for c in (9, 9, 32, 32, 10, 13, 11, 12, 28, 31, 0x85, 0xa0, 0x1680, 0x2000, 0x200a, 0x2028, 0x2029,
                                  0x202f, 0x205f, 0x3000, 0x200b, 0x180e, 0xfeff, 8, 14, 27, 33, 0x84, 0x86, 0x9f, 0xa1,
                                  0x2010, 0x200c, 0x3001)] + list("aB'(),=x1") + ["\u00e9"]
@@ -418,9 +528,9 @@ def _registered(fid):
         return False
 
 
-WITNESS_TAB = {"revs": [{"id": 0, "down": [], "deps": [], "up": [["ct", 0, [[0, T_TEXT, None]]], ["bi", 0, [[0, T_TEXT]], [{"0": ["s", "tab\there"]}]]],
+WITNESS_TAB = {"revs": [{"id": 0, "down": [], "deps": [], "up": [["ct", 0, [[0, T_TEXT, None, False]], []], ["bi", 0, [[0, T_TEXT]], [{"0": ["s", "tab\there"]}]]],
                          "dn": [["dt", 0]]}], "cmd": "upgrade", "start": None, "end": "heads", "raw": "", "tabs": True}
-_ONE = [{"id": 0, "down": [], "deps": [], "up": [["ct", 0, [[0, T_INT, None]]], ["bi", 0, [[0, T_INT]], [{"0": ["i", 1]}]]], "dn": [["dt", 0]]}]
+_ONE = [{"id": 0, "down": [], "deps": [], "up": [["ct", 0, [[0, T_INT, None, False]], []], ["bi", 0, [[0, T_INT]], [{"0": ["i", 1]}]]], "dn": [["dt", 0]]}]
 # `upgrade base:base --sql` emits a lone DROP TABLE alembic_version
 WITNESS_EMPTY_PLAN = {"revs": _ONE, "cmd": "upgrade", "start": None, "end": "base", "raw": "", "tabs": False}
 # a database at base that still has its (empty) version table: the offline CREATE TABLE alembic_version fails
@@ -439,7 +549,7 @@ def generate(tier, seed):
     pts = [c for c in pts if c > 0]
     specials = [chr(c) + "a" + chr(c) + "b" + chr(c) for c in pts] + [chr(c) for c in ws[:6]] + ["", "\t\t", " \t x\t'\t' \t"]
     for k in range(n):
-        h = gen_history(rnd, tier, tabs=False, invalid=(k % 20 == 7))
+        h = gen_history(rnd, tier, tabs=False, invalid=(k % 20 == 7), violate=(k % 20 in (3, 11, 16)))
         if k < len(specials):
             h["raw"] = specials[k]
         yield h
@@ -459,7 +569,7 @@ def generate(tier, seed):
 def search(tier, seed):
     rnd = random.Random(seed * 104729 + 12)
     for k in range(1500):
-        yield gen_history(rnd, tier, tabs=False, invalid=(k % 10 == 0))
+        yield gen_history(rnd, tier, tabs=False, invalid=(k % 10 == 0), violate=(k % 10 == 5))
 
 
 def classify(human, out):
@@ -527,24 +637,30 @@ def rname(r):
 
 
 def col_src(c):
-    cid, ty, dflt = c
+    cid, ty, dflt, notnull = c
+    nn = ", nullable=False" if notnull else ""
     if dflt is None:
-        return "sa.Column(%r, %s)" % (cname(cid), TYPES[ty])
+        return "sa.Column(%r, %s%s)" % (cname(cid), TYPES[ty], nn)
     if dflt[0] in ("s", "date", "dt"):
-        return "sa.Column(%r, %s, server_default=%r)" % (cname(cid), TYPES[ty], stored(dflt)[1])
-    return "sa.Column(%r, %s, server_default=sa.text(%r))" % (cname(cid), TYPES[ty], sql_lit(dflt))
+        return "sa.Column(%r, %s, server_default=%r%s)" % (cname(cid), TYPES[ty], stored(dflt)[1], nn)
+    return "sa.Column(%r, %s, server_default=sa.text(%r)%s)" % (cname(cid), TYPES[ty], sql_lit(dflt), nn)
+
+
+def uniq_src(u):
+    return "sa.%s(%s)" % ("PrimaryKeyConstraint" if u["pk"] else "UniqueConstraint", ", ".join(repr(cname(c)) for c in u["cols"]))
 
 
 def op_src(o):
     k = o[0]
     if k == "ct":
-        return "op.create_table(%r, %s)" % (tname(o[1]), ", ".join(col_src(c) for c in o[2]))
+        return "op.create_table(%r, %s)" % (tname(o[1]), ", ".join([col_src(c) for c in o[2]] + [uniq_src(u) for u in o[3]]))
     if k == "dt":
         return "op.drop_table(%r)" % tname(o[1])
     if k == "ac":
         return "op.add_column(%r, %s)" % (tname(o[1]), col_src(o[2]))
     if k == "ci":
-        return "op.create_index(%r, %r, [%s])" % (iname(o[1]), tname(o[2]), ", ".join(repr(cname(c)) for c in o[3]))
+        return "op.create_index(%r, %r, [%s]%s)" % (iname(o[1]), tname(o[2]), ", ".join(repr(cname(c)) for c in o[3]),
+                                                      ", unique=True" if len(o) > 4 and o[4] else "")
     if k == "di":
         return "op.drop_index(%r)" % iname(o[1])
     if k == "bi":
@@ -592,17 +708,21 @@ def read_db(path):
             if ty == "table":
                 cols = []
                 for cid, cn, cty, notnull, dflt, pk in con.execute("pragma table_info(%s)" % name):
-                    if notnull or pk:
-                        raise AssertionError("unexpected column attributes in %s.%s" % (name, cn))
-                    cols.append([int(cn[1:]), PRAGMA_TYPES.index(cty), None if dflt is None else list(parse_sql_lit(dflt))])
+                    cols.append([int(cn[1:]), PRAGMA_TYPES.index(cty), None if dflt is None else list(parse_sql_lit(dflt)), bool(notnull)])
+                uniq = []
+                for seq, iname_, unique, origin, partial in con.execute("pragma index_list(%s)" % name):
+                    if origin in ("pk", "u"):
+                        uniq.append([int(r[2][1:]) for r in con.execute("pragma index_info(%s)" % iname_)])
                 rows = [[db_value(x) for x in row] for row in con.execute("select * from %s order by rowid" % name)]
-                tabs.append({"t": int(name[1:]), "cols": cols, "rows": rows})
+                tabs.append({"t": int(name[1:]), "cols": cols, "uniq": uniq, "rows": rows})
             elif ty == "index":
                 il = [r for r in con.execute("pragma index_list(%s)" % tbl) if r[1] == name]
-                if len(il) != 1 or il[0][2]:
+                if len(il) != 1 or il[0][4]:
                     raise AssertionError("unexpected index %r" % (il,))
+                if il[0][3] != "c":
+                    continue            # the automatic index of a PRIMARY KEY / UNIQUE constraint: part of the table
                 icols = [int(r[2][1:]) for r in con.execute("pragma index_info(%s)" % name)]
-                idx.append({"i": int(name[2:]), "t": int(tbl[1:]), "cols": icols})
+                idx.append({"i": int(name[2:]), "t": int(tbl[1:]), "cols": icols, "unique": bool(il[0][2])})
             else:
                 raise AssertionError("unexpected sqlite_master entry %r" % ty)
         return {"tabs": tabs, "idx": idx, "vers": vers, "raw": raw}
@@ -615,9 +735,8 @@ def rid(s):
 
 
 def canon_obs(o):
-    if o is None:
-        return None
-    return {"tabs": sorted(({"t": t["t"], "cols": t["cols"], "rows": sorted(t["rows"], key=lambda r: json.dumps(r))}
+    return {"tabs": sorted(({"t": t["t"], "cols": t["cols"], "uniq": sorted(sorted(u) for u in t["uniq"]),
+                             "rows": sorted(t["rows"], key=lambda r: json.dumps(r))}
                             for t in o["tabs"]), key=lambda t: t["t"]),
             "idx": sorted(o["idx"], key=lambda x: x["i"]),
             "vers": sorted(rid(v) for v in (o["vers"] or [])),
@@ -631,7 +750,7 @@ def coq_ovalue(m):
 
 
 def coq_cols(cols, conv=lambda d: d):
-    return cf.lst("mkCol %d %d %s" % (c, ty, coq_ovalue(conv(d))) for c, ty, d in cols)
+    return cf.lst("mkCol %d %d %s %s" % (c, ty, coq_ovalue(conv(d)), cf.boolean(nn)) for c, ty, d, nn in cols)
 
 
 def _sd(d):
@@ -639,17 +758,16 @@ def _sd(d):
 
 
 def coq_table(t):
-    return "mkTable %d %s %s" % (t["t"], coq_cols(t["cols"]), cf.lst(cf.lst(coq_value(tuple(v)) for v in row) for row in t["rows"]))
+    return "mkTable %d %s %s %s" % (t["t"], coq_cols(t["cols"]), cf.lst(cf.nlist(u) for u in t["uniq"]),
+                                    cf.lst(cf.lst(coq_value(tuple(v)) for v in row) for row in t["rows"]))
 
 
 def coq_index(x):
-    return "mkIndex %d %d %s" % (x["i"], x["t"], cf.nlist(x["cols"]))
+    return "mkIndex %d %d %s %s" % (x["i"], x["t"], cf.nlist(x["cols"]), cf.boolean(x["unique"]))
 
 
-def coq_obs(o):
-    if o is None:
-        return "None"
-    return "(Some (mkObs %s %s %s %s))" % (cf.lst(coq_table(t) for t in o["tabs"]), cf.lst(coq_index(x) for x in o["idx"]),
+def coq_obs(o, ok=True):
+    return "(%s (mkObs %s %s %s %s))" % ("ROk" if ok else "RErr", cf.lst(coq_table(t) for t in o["tabs"]), cf.lst(coq_index(x) for x in o["idx"]),
                                             cf.nlist(o["vers"]), cf.lst(cf.string(s) for s in o["raw"]))
 
 
@@ -707,17 +825,17 @@ def encode_steps(human, plan, startdb):
         for o in byid[st["rev"]]["up" if st["up"] else "dn"]:
             k = o[0]
             if k == "ct":
-                ops.append("CreateTable %d %s" % (o[1], coq_cols(o[2], _sd)))
+                ops.append("CreateTable %d %s %s" % (o[1], coq_cols(o[2], _sd), cf.lst(cf.nlist(u["cols"]) for u in o[3])))
                 schema.setdefault(o[1], [c[0] for c in o[2]])
             elif k == "dt":
                 ops.append("DropTable %d" % o[1])
                 schema.pop(o[1], None)
             elif k == "ac":
-                ops.append("AddColumn %d (mkCol %d %d %s)" % (o[1], o[2][0], o[2][1], coq_ovalue(_sd(o[2][2]))))
+                ops.append("AddColumn %d (mkCol %d %d %s %s)" % (o[1], o[2][0], o[2][1], coq_ovalue(_sd(o[2][2])), cf.boolean(o[2][3])))
                 if o[1] in schema and o[2][0] not in schema[o[1]]:
                     schema[o[1]] = schema[o[1]] + [o[2][0]]
             elif k == "ci":
-                ops.append("CreateIndex %d %d %s" % (o[1], o[2], cf.nlist(o[3])))
+                ops.append("CreateIndex %d %d %s %s" % (o[1], o[2], cf.nlist(o[3]), cf.boolean(len(o) > 4 and o[4])))
             elif k == "di":
                 ops.append("DropIndex %d" % o[1])
             elif k in ("bi", "xi"):
@@ -752,7 +870,36 @@ def encode_steps(human, plan, startdb):
     return cf.lst(out), nrows
 
 
+def normalise(h):
+    """inputs written by earlier versions of this plugin (corpus, replays): columns without NOT NULL flag / default,
+    create_table without constraint list, create_index without unique flag, bulk_insert without multiinsert flag"""
+    h = json.loads(json.dumps(h))
+
+    def col(c):
+        c = list(c)
+        if len(c) == 2:
+            c.append(None)
+        if len(c) == 3:
+            c.append(False)
+        return c
+    for r in h["revs"]:
+        for body in (r["up"], r["dn"]):
+            for o in body:
+                if o[0] == "ct":
+                    o[2] = [col(c) for c in o[2]]
+                    if len(o) == 3:
+                        o.append([])
+                elif o[0] == "ac":
+                    o[2] = col(o[2])
+                elif o[0] == "ci" and len(o) == 4:
+                    o.append(False)
+                elif o[0] == "bi" and len(o) == 4:
+                    o.append(True)
+    return h
+
+
 def run_case(h):
+    h = normalise(h)
     import logging
     import warnings
     warnings.simplefilter("ignore")
@@ -807,9 +954,9 @@ def run_case(h):
         on_err = None
         try:
             fn(cfg_for("on.db"), endname)
-            on = read_db(os.path.join(d, "on.db"))
         except expected as e:
-            on, on_err = None, type(e).__name__
+            on_err = type(e).__name__
+        on = read_db(os.path.join(d, "on.db"))      # after an error: what the rolled-back transaction left
         # offline: script into the buffer, then statement by statement with the sqlite3 module
         off_err = None
         buf = io.StringIO()
@@ -824,11 +971,11 @@ def run_case(h):
                     con.execute(s)
             finally:
                 con.close()
-            off = read_db(os.path.join(d, "off.db"))
         except expected as e:
-            off, off_err = None, type(e).__name__
+            off_err = type(e).__name__
         except sqlite3.Error as e:
-            off, off_err = None, "sqlite3." + type(e).__name__
+            off_err = "sqlite3." + type(e).__name__
+        off = read_db(os.path.join(d, "off.db"))    # after an error: every statement before the failing one (autocommit)
 
         # DefaultImpl._exec on one raw statement text
         rbuf = io.StringIO()
@@ -850,17 +997,46 @@ def run_case(h):
         db_term = "(mkU %s %s, %s)" % (cf.lst(coq_table(t) for t in startdb["tabs"]), cf.lst(coq_index(x) for x in startdb["idx"]),
                                        "None" if vers is None else "Some %s" % cf.nlist(rid(v) for v in vers))
         cin = "mkIn %s %s %s %s" % (db_term, cf.nlist([start] if start is not None else []), steps_term, cf.string(h["raw"]))
-        cout = "mkOut %s %s %s" % (coq_obs(con_), coq_obs(coff_), cf.string(posted))
+        cout = "mkOut %s %s %s" % (coq_obs(con_, on_err is None), coq_obs(coff_, off_err is None), cf.string(posted))
         nsteps = len(plan.steps) if plan else 0
         branched = any(len(r["down"]) > 1 or r["deps"] for r in h["revs"]) or \
             len([r for r in h["revs"] if not r["down"]]) > 1 or \
             any(len([c for c in h["revs"] if r["id"] in c["down"]]) > 1 for r in h["revs"])
         shape = "%s-%s-%s%s" % (cmd, "branched" if branched else "linear",
-                                "err" if (on is None or off is None) else ("empty" if nsteps == 0 else "ok"),
+                                "err" if (on_err or off_err) else ("empty" if nsteps == 0 else "ok"),
                                 "-tabs" if h.get("tabs") else "")
         out = {"online": con_, "offline": coff_, "online_error": on_err, "offline_error": off_err, "plan_error": plan_err,
                "plan": plan.steps if plan else None, "statements": nstmts, "posted": posted}
-        return dict(cin=cin, cout=cout, out=out, nontrivial=bool(on is not None and off is not None and nsteps > 0 and nrows > 0),
+        return dict(cin=cin, cout=cout, out=out, nontrivial=bool(not on_err and not off_err and nsteps > 0 and nrows > 0),
                     shape=shape)
     finally:
         shutil.rmtree(d, ignore_errors=True)
+
+
+def extra_evidence():
+    """`start` of an offline range is base or ONE revision: probe that alembic rejects every multi-head spelling"""
+    import io as _io
+    import warnings
+    warnings.simplefilter("ignore")
+    from alembic import command, util
+    from alembic.config import Config
+    revs = [{"id": 0, "down": [], "deps": [], "up": [], "dn": []}, {"id": 1, "down": [0], "deps": [], "up": [], "dn": []},
+            {"id": 2, "down": [0], "deps": [], "up": [], "dn": []}]
+    d = tempfile.mkdtemp(prefix="avc12mh")
+    res = {}
+    try:
+        write_scripts(d, revs)
+        for fn, rng in ((command.upgrade, "r1+r2:heads"), (command.upgrade, "r1,r2:heads"), (command.downgrade, "r1+r2:base"),
+                        (command.downgrade, "heads:base"), (command.downgrade, "r1,r2:r0")):
+            cfg = Config()
+            cfg.set_main_option("script_location", d)
+            cfg.set_main_option("sqlalchemy.url", "sqlite:///" + os.path.join(d, "x.db"))
+            cfg.output_buffer = _io.StringIO()
+            try:
+                fn(cfg, rng, sql=True)
+                res["%s %s" % (fn.__name__, rng)] = "accepted"
+            except util.CommandError:
+                res["%s %s" % (fn.__name__, rng)] = "CommandError"
+    finally:
+        shutil.rmtree(d, ignore_errors=True)
+    return {"multi_head_start_rejected": all(v == "CommandError" for v in res.values()), "multi_head_start_probe": res}
